@@ -21,6 +21,22 @@
 #include <string.h>
 #include <unistd.h>
 
+// ------------------------------------------------ allocation monitor (C03)
+// "Generated code never allocates or frees": under ASan the allocator's
+// malloc / free hooks count every call, so that a malloc+free pair inside one
+// decoder call is seen too. Other builds report "unknown".
+#if defined(__has_feature)
+#if __has_feature(address_sanitizer)
+#include <sanitizer/allocator_interface.h>
+#define CSIM_ALLOC_HOOKS 1
+#endif
+#endif
+static volatile uint32_t n_mallocs = 0, n_frees = 0;
+#if defined(CSIM_ALLOC_HOOKS)
+static void on_malloc(const volatile void* p, size_t n) { (void)p; (void)n; n_mallocs++; }
+static void on_free(const volatile void* p) { (void)p; n_frees++; }
+#endif
+
 // ---------------------------------------------------------------- I/O helpers
 
 static void die(const char* msg) {
@@ -337,8 +353,10 @@ static void do_call(void) {
   work.ptr = work_len ? work_mem : NULL;
   work.len = work_len;
 
+  uint32_t mallocs0 = n_mallocs, frees0 = n_frees;
   wuffs_base__status st = wuffs_base__io_transformer__transform_io(
       xf, argshape == 2 ? NULL : &dbuf, argshape == 1 ? NULL : &s, work);
+  uint32_t mallocs1 = n_mallocs - mallocs0, frees1 = n_frees - frees0;
 
   uint8_t src_ok = (s.data.ptr == src) && (s.data.len == src_len) && (s.meta.wi == src_len) &&
                    (s.meta.pos == pos) && ((s.meta.closed != 0) == (closed != 0)) &&
@@ -372,6 +390,14 @@ static void do_call(void) {
   wuffs_base__optional_u63 h = wuffs_base__io_transformer__dst_history_retain_length(xf);
   wr8(wuffs_base__optional_u63__has_value(&h) ? 1 : 0);
   wr64(wuffs_base__optional_u63__value_or(&h, 0));
+#if defined(CSIM_ALLOC_HOOKS)
+  wr32(mallocs1);
+  wr32(frees1);
+#else
+  (void)mallocs1; (void)frees1;
+  wr32(0xFFFFFFFFu);
+  wr32(0xFFFFFFFFu);
+#endif
 
   free(src);
   free(shadow);
@@ -492,6 +518,9 @@ static void do_hash(void) {
 
 int main(void) {
   setvbuf(stdout, NULL, _IOFBF, 1 << 16);
+#if defined(CSIM_ALLOC_HOOKS)
+  __sanitizer_install_malloc_and_free_hooks(on_malloc, on_free);
+#endif
   for (;;) {
     uint8_t op = rd8();
     switch (op) {
